@@ -65,6 +65,8 @@ def build_pool(ctx, optkeys, structkeys=()):
     add('neg1', '-1', pair=True)
     add('one', '1', benign=True, pair=True)
     add('p31', '2147483648')
+    add('p61', '2305843009213693952')        # times 8 (a unit) wraps to exactly 0 in 64 bits
+    add('p62', '4611686018427387904')
     add('p63', '9223372036854775808', pair=True)
     add('p64', '18446744073709551616', pair=True)
     add('f1e308', '1e308', pair=True)
@@ -83,6 +85,7 @@ def build_pool(ctx, optkeys, structkeys=()):
     add('arr_plain', '[1, "a"]', benign=True, pair=True)
     add('obj_empty', '{}', pair=True)
     add('obj_plain', '{"a": 1}', benign=True, pair=True)
+    add('obj_emptykey', '{"": "x", "#text": "t", "@": "u"}')       # keys that are empty or only a marker character
     add('opt_unit0', '{unit: 0}', pair=True)
     add('opt_indent_neg', '{indent: -1}', pair=True)
     add('opt_linebytes_neg', '{line_bytes: -5}')
@@ -98,7 +101,7 @@ def build_pool(ctx, optkeys, structkeys=()):
     add('dv_obj_cjk', '("{\\"k\\":\\"" + ("\u00e9\u6f22" * 14) + "\\"}" | json)')
     # extended option objects (option arm only): one member each, so that one bad member is not masked by another
     ext_vals = [('neg1', '-1'), ('zero', '0'), ('three', '3'), ('e9', '1e9'), ('p64', '18446744073709551616'), ('half', '0.5'),
-                ('str', '"x"'), ('null', 'null'), ('true', 'true'), ('arr', '[]')]
+                ('str', '"x"'), ('estr', '""'), ('null', 'null'), ('true', 'true'), ('arr', '[]')]
     for k in optkeys:
         for vn, ve in ext_vals:
             B.append(dict(name='o_%s_%s' % (k, vn), expr='{%s: %s}' % (json.dumps(k), ve), inp=True, benign=False, pair=False, base=False))
@@ -421,6 +424,21 @@ def run(ctx):
             vals = list(context(f))
             vals[p] = v
             ocalls.append(dict(f=f['i'], pos=p, vals=vals, arm='options'))
+    # an empty string as option value, with the usual input and with an object whose keys are empty or a lone marker character: option
+    # values are spliced into keys and names (prefixes, separators), so the two interact; few calls, all of them run
+    byname_pool = {p['name']: p['id'] for p in pool}
+    estr = [p['id'] for p in pool if p['name'].endswith('_estr')]
+    ecalls = []
+    for f, p in optpos:
+        for v in estr:
+            for inp in (None, byname_pool.get('obj_emptykey'), byname_pool.get('str_empty')):
+                vals = list(context(f))
+                vals[p] = v
+                if inp is not None:
+                    if vals[0] == inp:
+                        continue
+                    vals[0] = inp
+                ecalls.append(dict(f=f['i'], pos=p, vals=vals, arm='options'))
     stride = 1
     sids = {p['id'] for p in pool if p['name'].startswith('s_')}
     scalls = [c for c in ocalls if c['vals'][c['pos']] in sids]       # few (structured members only): all of them run
@@ -428,8 +446,9 @@ def run(ctx):
     if len(ocalls) > cfg['opt_budget']:
         stride = -(-len(ocalls) // cfg['opt_budget'])
         ocalls = ocalls[rng.randrange(stride)::stride]
-    ocalls = scalls + ocalls
-    ctx.cov['option_arm'] = dict(positions=len(optpos), calls=len(ocalls), stride=stride, structured_member_calls=len(scalls))
+    ocalls = [c for c in ocalls if c['vals'][c['pos']] not in set(estr)]
+    ocalls = scalls + ecalls + ocalls
+    ctx.cov['option_arm'] = dict(positions=len(optpos), calls=len(ocalls), stride=stride, structured_member_calls=len(scalls), empty_string_member_calls=len(ecalls))
     calls += ocalls
 
     # ---- 5. thorough: all pairs over the pair pool for arity <= 2 (others benign)
@@ -453,7 +472,7 @@ def run(ctx):
     # ---- 6. terminal arm: functions that talk to the terminal / end the process, on a virtual terminal; repl as a whole
     # interactive session (fq -i) whose scripted user types `. | repl(OPTS)`
     byname = {(f['fn'], f['arity']): f for f in fns}
-    inputs = [p for p in pool if p['base'] and p['name'] in ('null', 'one', 'str_a', 'arr_plain', 'obj_plain', 'dv_struct', 'bin_unaligned', 'nan', 'str_64k')]
+    inputs = [p for p in pool if p['base'] and p['name'] in ('null', 'one', 'str_a', 'arr_plain', 'obj_plain', 'obj_emptykey', 'dv_struct', 'bin_unaligned', 'nan', 'str_64k')]
     optsv = [p for p in pool if p['base'] and p['name'].startswith(('obj_', 'opt_', 'null', 'one', 'str_a'))]
     if ('repl', 0) in byname:
         f = byname[('repl', 0)]
